@@ -55,6 +55,10 @@ class Ctx:
         faults = scenario.get('faults') or {}
         self.stalls = {(s['node'], s['call']): s['dur'] for s in faults.get('stalls', [])}
         self.fails = {(s['node'], s['call']): s.get('when', 'pre') for s in faults.get('fail', [])}
+        # failures tied to an element (not to a call number): the same element fails in a local and in a Dask twin
+        self.fail_values = {}
+        for s in faults.get('fail_value', []):
+            self.fail_values.setdefault(s['node'], set()).add(s['token'])
 
     # -- user function plumbing ------------------------------------------
     def _begin(self, nid, x, kind):
@@ -91,7 +95,8 @@ class Ctx:
         """pure: callable(*args, **kw) -> value"""
         def f(*args, **kwargs):
             a = self._begin(nid, args[0] if len(args) == 1 else args, kind)
-            if (nid, a.call) in self.fails:
+            if (nid, a.call) in self.fails or (
+                    nid in self.fail_values and self.fail_values[nid] & set(fns.tokens(args))):
                 self._end(a, False)
                 raise InjectedFailure(nid, a.call)
             r = pure(*args, **kwargs)
